@@ -170,9 +170,9 @@ def oracle(prog, it, linemap):
         calls = s[0] == "call" or any(G.expr_has(e, ("call",)) for e in exprs)
         matches = any(G.expr_has(e, ("match",)) for e in exprs)
         target = prog.name_text(s[1]) if s[0] in ("set", "unset") else ("var.v%d" % s[1] if s[0] == "decl" else None)
-        derived = s[2].get("derived", []) if s[0] == "rawstmt" else []
         if s[0] == "rawstmt":
             target = s[2].get("target")
+        derived = derived_of(target, pool)
         what = "line %d `%s`" % (a["line"], prog_line(prog, a["line"]))
         # locals of the frame: only the assigned one may change, none may vanish
         for n, v in a["locals"].items():
@@ -194,37 +194,62 @@ def oracle(prog, it, linemap):
     return bad
 
 
+def derived_of(target, pool):
+    """names whose value is computed from the target's: a header and its sub-fields, req.url and its parts"""
+    if target is None:
+        return []
+    out = []
+    for n in pool:
+        if n == target:
+            continue
+        if n.split(":")[0] == target.split(":")[0] and ".http." in n:
+            out.append(n)           # the header itself and all of its sub-fields (sub-field laws are C17's)
+        if target == "req.url" and n.startswith("req.url."):
+            out.append(n)
+    return out
+
+
 def prog_line(prog, line):
     return prog._text.splitlines()[line - 1].strip() if getattr(prog, "_text", None) else "?"
 
 
 def check_logs(prog, it, linemap):
     """log-variant run: every snapshot `log X;` line must print the rendering of the raw value the
-    accessor reported for X at that moment"""
+    accessor reported for X at that moment.  A log statement prints when its evaluation is over,
+    i.e. after the statements of any function it calls."""
     bad = []
     logs = it["logs"]
     k = 0
-    for ent in it["entries"]:
-        info = linemap.get(ent["line"])
-        if ent["line"] is None:
-            continue
-        text = prog_line(prog, ent["line"])
-        if not text.startswith("log "):
-            continue
+    pending = []
+
+    def finish(ent):
+        nonlocal k
         if k >= len(logs):
-            break                      # the statement raised before logging
+            return
         line = logs[k]
         k += 1
+        info = linemap.get(ent["line"])
         if info is None or info[0] != "snaplog":
-            continue
+            return
         n = info[1]
         raw = ent["locals"].get(n) if n.startswith("var.") else dict(zip(prog.pool(), ent["pool"])).get(n)
         if raw is None:
             bad.append("log of %s printed %r but the accessor has no such name" % (n, line))
-            continue
+            return
         want = U.render(raw)
         if want is not None and want != line:
             bad.append("line %d: log %s printed %r, accessor value %s renders to %r" % (ent["line"], n, line, U.show(raw), want))
+
+    for ent in it["entries"]:
+        while pending and (ent["line"] is None or pending[-1]["depth"] >= ent["depth"]):
+            if ent["line"] is None and it["status"] == "err":
+                pending.pop()          # the run raised inside this statement: nothing was printed
+                continue
+            finish(pending.pop())
+        if ent["line"] is None:
+            break
+        if prog_line(prog, ent["line"]).startswith("log "):
+            pending.append(ent)
     return bad
 
 
@@ -240,6 +265,11 @@ def corpus_programs():
 
 
 def run(ctx):
+    if ctx.replay:
+        # a replay file names the seed of the run that found it: the run is deterministic in the seed
+        import json, random
+        ctx.seed = json.load(open(ctx.replay)).get("seed", ctx.seed)
+        ctx.rng = random.Random(ctx.seed)
     rng = ctx.rng
     thorough = ctx.thorough()
     proved = ctx.prove()
